@@ -61,6 +61,9 @@ def py_apply(L, o):
     return None
 
 
+GUARD_QUERIES = []
+
+
 def gen_scenario(r, m, maxlen):
     """returns (ops, expected abstract list or None, number of ids)"""
     ops, L, nl, exp = [], [], {}, []
@@ -88,7 +91,23 @@ def gen_scenario(r, m, maxlen):
             if in_contract and py_apply(L, o) is None:
                 o = ("M", a, L[-1])
         else:
-            o = ("L", r.choice(L), r.choice(L))
+            line0, k0 = {}, 0
+            for x in L:
+                line0[x] = k0
+                if nl.get(x):
+                    k0 += 1
+            words = [x for x in L if not nl.get(x)]
+            good = [(x, y) for x in words for y in words if line0[x] != line0[y]]
+            o = ("L",) + r.choice(good) if good and r.random() < 0.7 else ("L", r.choice(L), r.choice(L))
+            # the shape the passes use (and the hook judges on real calls): two non-newline chunks of different lines -> the theorem's executable
+            # hypothesis swap_lines_guard is expected to hold in the state before the call
+            line, ln = {}, 0
+            for x in L:
+                line[x] = ln
+                if nl.get(x):
+                    ln += 1
+            if not nl.get(o[1]) and not nl.get(o[2]) and line[o[1]] != line[o[2]]:
+                GUARD_QUERIES.append((list(ops), o[1], o[2], nid))
         ops.append(o)
         if exp is not None:
             exp = py_apply(exp, o)
@@ -150,6 +169,17 @@ def correspond(rep, r, n, maxlen=14):
         diffs.append("hook UNC_VERIF_LISTOPS printed %d result lines for %d scenarios" % (len(real), len(scen)))
         return 0, diffs, stats
     models = m.ask_many(["listops %d %s" % (nid + 2, ";".join(",".join(str(v) for v in o) for o in ops)) for ops, exp, nid in scen])
+    # the link between the contract judged on real calls and the hypothesis of C02_swap_lines_keeps_every_chunk (a test of that link, not a proof)
+    qs = GUARD_QUERIES[:2000]
+    del GUARD_QUERIES[:]
+    if qs:
+        ans = m.ask_many(["slguard %d %s %d %d" % (nid + 2, ";".join(",".join(str(v) for v in o) for o in ops) or ";", a, b) for ops, a, b, nid in qs])
+        stats["swap_lines_guard_queries"] = len(qs)
+        stats["swap_lines_guard_true"] = sum(1 for x in ans if x == "1")
+        for (ops, a, b, nid), x in zip(qs, ans):
+            if x != "1":
+                diffs.append("swap_lines_guard is false for SwapLines(%d, %d) on two non-newline chunks of different lines after ops '%s'" % (a, b, ";".join(" ".join(str(v) for v in o) for o in ops)))
+                break
     compared = 0
     for (ops, exp, nid), rl, ml, text in zip(scen, real, models, lines):
         compared += 1
